@@ -20,6 +20,8 @@ def flat (h : Nat) (cs : List (Node h)) : List Entry := (cs.map (abs h)).flatten
 
 theorem abs_succ (h : Nat) (n : Inner (Node h)) : abs (h + 1) n = flat h n.kids := rfl
 theorem abs_zero (l : Leaf) : abs 0 l = l.es := rfl
+@[simp] theorem Tree.abs_node (h : Nat) (n : Node h) : (Tree.node h n).abs = C23.abs h n := rfl
+@[simp] theorem Tree.abs_empty : Tree.empty.abs = [] := rfl
 
 theorem lbOk_of_gap {lo : Option Key} {k x : Key} (h : gapOk lo (some k)) (hx : k ≤ x) : lbOk lo x := by
   cases lo with
